@@ -9,6 +9,7 @@
   index and every mechanism" is therefore "for every `cfg`, `react`, `env`".
 -/
 import Lomond.Proofs.Release
+import Lomond.Generated.Facts
 
 namespace Lomond.C13
 open Lomond Lomond.Core
@@ -60,6 +61,15 @@ example :
     (runAll { v := { cleanup := true } }
       (fun hist => if hist.length = 2 then [.abandon false] else []) []).trace
       = [.sockClose, .ev (.connected false), .wr [], .ev .connecting] := by
+  decide
+
+
+/-- The source has the structure the repaired model (`cleanup = true`) assumes — re-extracted
+    from `/repo/lomond/session.py` on every run: the `Connected` event is yielded inside the last
+    `try` statement of `run()`, whose `finally` clause closes the socket and the selector. -/
+theorem source_has_repaired_structure :
+    Gen.connectedYieldInTry = true ∧
+    (∃ t ∈ Gen.runTries.getLast?, "self._close_socket" ∈ t.2.2 ∧ "selector.close" ∈ t.2.2) := by
   decide
 
 end Lomond.C13
